@@ -45,6 +45,8 @@ KidAt(kind, j) ==
     [] kind = "spread"  -> ChSpread(Call("gs" \o N(j), Arr(<<Num(j)>>)))
     [] kind = "elem"    -> ChElem(Inner("e" \o N(j)))
     [] kind = "comp"    -> ChElem(InnerComp("k" \o N(j)))
+    [] kind = "direlem" -> ChElem(Elem(TagHtml("span"), <<Dir("kebab", <<"show">>, "", <<>>, AvExpr(Call("dsv" \o N(j), Bool(TRUE))))>>,
+                                       <<ChExpr(Call("dgk" \o N(j), Num(7)))>>))
     [] kind = "arr"     -> ChExpr(ArrLit(<<Call("ga" \o N(j), Num(1)), Member("oc", "z" \o N(j), Num(2))>>))
 
 Hosts == {TagHtml("div"), TagComp("Foo", TRUE, Opq("vFoo")), TagComp("Bar", FALSE, Undef), TagFrag}
